@@ -14,7 +14,7 @@ def pkg_name(rel):
     return os.path.basename(rel)
 
 
-def build_overlay(dst, harness_files, extra=None):
+def build_overlay(dst, harness_files, extra=None, clock_pkgs=()):
     """harness_files: list of paths relative to VERIF/harness (e.g. pkg/x25/zz_verif_c02.go).
     extra: dict relpath -> content (generated harnesses). Writes rt file per package."""
     if os.path.exists(dst):
@@ -37,6 +37,10 @@ def build_overlay(dst, harness_files, extra=None):
     for p in pkgs:
         with open(os.path.join(dst, p, 'zz_verif_rt.go'), 'w') as f:
             f.write(tmpl.replace('PKGNAME', pkg_name(p)))
+    ctmpl = open(os.path.join(VERIF, 'harness', 'rt_clock.go.tmpl')).read()
+    for p in clock_pkgs:
+        with open(os.path.join(dst, p, 'zz_verif_rt_clock.go'), 'w') as f:
+            f.write(ctmpl.replace('PKGNAME', pkg_name(p)))
     return sorted(pkgs)
 
 
